@@ -161,6 +161,43 @@ func c13DensePoints() [][]uint8 {
 	return pts
 }
 
+// c13MapPointsOver: every map over keys ⊆ {0,1} whose values are non-identity elements
+// (elems[0] is the identity), plus nil and the empty map.
+func c13MapPointsOver(elems []uint8) []map[int]uint8 {
+	pts := []map[int]uint8{nil, {}}
+	for i0 := range elems {
+		for i1 := range elems {
+			if i0 == 0 && i1 == 0 {
+				continue
+			}
+			m := map[int]uint8{}
+			if i0 != 0 {
+				m[0] = elems[i0]
+			}
+			if i1 != 0 {
+				m[1] = elems[i1]
+			}
+			pts = append(pts, m)
+		}
+	}
+	return pts
+}
+
+// c13DensePointsOver: every slice of length 0..2 over elems (identity included, so all
+// trailing-identity representations), nil and empty.
+func c13DensePointsOver(elems []uint8) [][]uint8 {
+	pts := [][]uint8{nil, {}}
+	for _, a := range elems {
+		pts = append(pts, []uint8{a})
+	}
+	for _, a := range elems {
+		for _, b := range elems {
+			pts = append(pts, []uint8{a, b})
+		}
+	}
+	return pts
+}
+
 func c13NilDensePoints() [][]ValueNilness {
 	pts := [][]ValueNilness{nil, {}}
 	for _, a := range c13AllVN() {
@@ -216,6 +253,52 @@ func c13LawsMain(t *testing.T, res *vx.Result, raw json.RawMessage) {
 	}
 	if want("densemaplattice-nilness") {
 		c13Laws[c13NilMapL]("densemaplattice-nilness", c13NilDensePoints(), c13FamNilMap().pstr, res, only)
+	}
+	// element lattices whose identity is not the zero value of the element type
+	hex := func(pstr func(uint8) string) (func(map[int]uint8) string, func([]uint8) string) {
+		return func(m map[int]uint8) string {
+				if m == nil {
+					return "nil"
+				}
+				s := "{"
+				for _, k := range []int{0, 1} {
+					if v, ok := m[k]; ok {
+						s += fmt.Sprintf("%d:%s ", k, pstr(v))
+					}
+				}
+				return s + "}"
+			}, func(sl []uint8) string {
+				if sl == nil {
+					return "nil"
+				}
+				s := "["
+				for _, v := range sl {
+					s += pstr(v) + " "
+				}
+				return s + "]"
+			}
+	}
+	andPts := []uint8{0xFF, 0b01, 0b10, 0b00} // closed under AND; identity first
+	nzPts := []uint8{c13NZBot, 0, 1, c13NZTop}
+	mstr, sstr := hex(c13AndStr)
+	if want("and-elements") {
+		c13Laws[c13And]("and-elements", andPts, c13AndStr, res, only)
+	}
+	if want("maplattice-and") {
+		c13Laws[dfa.MapLattice[int, uint8, c13And]]("maplattice-and", c13MapPointsOver(andPts), mstr, res, only)
+	}
+	if want("densemaplattice-and") {
+		c13Laws[c13AndMapL]("densemaplattice-and", c13DensePointsOver(andPts), sstr, res, only)
+	}
+	mstr, sstr = hex(c13NZStr)
+	if want("flatnz-elements") {
+		c13Laws[c13FlatNZ]("flatnz-elements", nzPts, c13NZStr, res, only)
+	}
+	if want("maplattice-flatnz") {
+		c13Laws[dfa.MapLattice[int, uint8, c13FlatNZ]]("maplattice-flatnz", c13MapPointsOver(nzPts), mstr, res, only)
+	}
+	if want("densemaplattice-flatnz") {
+		c13Laws[c13NZMapL]("densemaplattice-flatnz", c13DensePointsOver(nzPts), sstr, res, only)
 	}
 	// the points really are what the statement names
 	if only == nil {
